@@ -58,6 +58,19 @@ func LS1() any { type L struct{ x int }; return L{1} }
 func LS2() any { type L struct{ x int }; return L{1} }
 func GL[T any]() any { type L struct{ t T }; return L{} }
 
+type Namer struct{}
+
+func (Namer) Name() string { return "namer" }
+
+// unnamed structs around a type that is local to a generic function: embedded vs named field of the same type
+func GEmb[T any]() (any, any) {
+	type Rec struct {
+		Namer
+		v T
+	}
+	return struct{ Rec }{}, struct{ Rec Rec }{}
+}
+
 %s
 '''
 
@@ -85,11 +98,18 @@ def gen_identity():
 		emit("local/generic-same-inst", btoa(q.GL[int]() == q.GL[int]())+btoa(reflect.TypeOf(q.GL[int]()) == reflect.TypeOf(q.GL[int]())))
 		emit("local/generic-two-inst", btoa(reflect.TypeOf(q.GL[int]()) == reflect.TypeOf(q.GL[string]()))+btoa(reflect.TypeOf(q.GL[int]()) == reflect.TypeOf(q.GL[q.N]())))
 		emit("local/generic-inst-from-main-type", btoa(reflect.TypeOf(q.GL[N]()) == reflect.TypeOf(q.GL[q.N]()))+btoa(reflect.TypeOf(q.GL[N]()) == reflect.TypeOf(q.GL[N]())))
+		for _, pair := range [][2]any{pairOf(q.GEmb[int]()), pairOf(q.GEmb[string]())} {
+			_, n0 := pair[0].(interface{ Name() string })
+			_, n1 := pair[1].(interface{ Name() string })
+			emit("local/generic-embedded-vs-named", btoa(reflect.TypeOf(pair[0]) == reflect.TypeOf(pair[1]))+btoa(pair[0] == pair[1])+btoa(n0)+btoa(n1)+itoa(int64(reflect.TypeOf(pair[0]).NumMethod()))+itoa(int64(reflect.TypeOf(pair[1]).NumMethod()))+itoa(int64(len(map[any]int{pair[0]: 1, pair[1]: 2}))))
+		}
 		m := map[any]string{q.L1(): "a", q.L2(): "b", 1: "c", q.N(1): "d", N(1): "e", int64(1): "f"}
 		emit("local/map-keys", itoa(int64(len(m))))
 	})""")
     src = PRELUDE.replace('import (\n\t"os"\n\t"unsafe"\n)', 'import (\n\t"os"\n\t"reflect"\n\t"unsafe"\n\t"vt/q"\n)')
     src += """
+func pairOf(a, b any) [2]any { return [2]any{a, b} }
+
 // == and map insertion panic for uncomparable dynamic types: that is an observation too ("P")
 func safeEq(a, b any) (res string) {
 	defer func() {
@@ -145,6 +165,19 @@ def gen_ifaces():
                     body.append("\t\tif i, ok := %s.(I%s); ok {\n\t\t\t_ = i\n\t\t\tout += \"%s>%s:\"%s + \" \"\n\t\t} else {\n\t\t\tout += \"%s>%s:no \"\n\t\t}" % (
                         expr, name(k), form, name(k), "".join(" + " + call(i, "i") for i in k), form, name(k)))
             main.append("\tcases = append(cases, func() {\n%s\n\t\temit(\"sat/%s\", out)\n\t})" % ("\n".join(body), t))
+    users = [("Tv" if recv == "v" else "Tp") + name(sb) for sb in subsets if 0 in sb for recv in ("v", "p")]
+    keyed = ["\t\tm := map[I0]int{}\n\t\tms := map[struct{ K I0 }]int{}\n\t\tfor round := 0; round < 3; round++ {"]
+    for u in users:
+        val = ("%s{id: 1}" % u) if u.startswith("Tv") else ("ptrs_%s" % u)
+        keyed.append("\t\t\tm[I0(%s)]++\n\t\t\tms[struct{ K I0 }{%s}]++" % (val, val))
+        # unrelated conversions in between, to other interfaces and of other types
+        keyed.append("\t\t\tsink = append(sink[:0], any(I01(Tv01{})), any(I012(&Tp012{})), any(I02(Tv012{})), any(I1(Tv1{})))")
+    keyed.append("\t\t}\n\t\tcounts := \"\"\n\t\tfor _, c := range m {\n\t\t\tif c != 3 {\n\t\t\t\tcounts += \"!\"\n\t\t\t}\n\t\t}\n\t\temit(\"ifacekeys\", itoa(int64(len(m)))+\"/\"+itoa(int64(len(ms)))+counts)")
+    decls.append("var sink []any")
+    for u in users:
+        if u.startswith("Tp"):
+            decls.append("var ptrs_%s = &%s{id: 1}" % (u, u))
+    main.append("\tcases = append(cases, func() {\n%s\n\t})" % "\n".join(keyed))
     emb = ["\t\tout := \"\""]
     for t in ("E1{}", "&E1{}", "E2{&Tp012{}}", "E3{}", "&E3{}", "E4{}", "E5{}", "&E5{}"):
         for k in subsets:
